@@ -96,6 +96,18 @@ func (db *DB) repairCompactions() error {
 		absReplacementPath := filepath.Join(db.basePath, meta.ReplacementPath)
 
 		log.Printf("finishing compaction in %s into %s", absWritePath, absReplacementPath)
+		// the rename has to come last: it takes the success flag out of the compaction folder, so everything before it
+		// is simply repeated when this recovery is interrupted, whereas tables deleted afterwards would be left
+		// behind half deleted
+		for _, sstablePath := range meta.SstablePaths {
+			if sstablePath != meta.ReplacementPath {
+				err := os.RemoveAll(filepath.Join(db.basePath, sstablePath))
+				if err != nil {
+					return err
+				}
+			}
+		}
+
 		err := os.RemoveAll(absReplacementPath)
 		if err != nil {
 			return err
@@ -104,15 +116,6 @@ func (db *DB) repairCompactions() error {
 		err = os.Rename(absWritePath, absReplacementPath)
 		if err != nil {
 			return err
-		}
-
-		for _, sstablePath := range meta.SstablePaths {
-			if sstablePath != meta.ReplacementPath {
-				err := os.RemoveAll(filepath.Join(db.basePath, sstablePath))
-				if err != nil {
-					return err
-				}
-			}
 		}
 	}
 
